@@ -17,7 +17,7 @@ import (
 //
 // Every execution that is still open at the end is finished with an EOF, and
 // the server must then close the connection.
-func Play(beh M, rng *rand.Rand, keep func(M) M) ([]M, error) {
+func Play(beh M, rng *rand.Rand, proj *Projection) ([]M, error) {
 	cfg := Sub(beh, "cfg")
 	x, err := NewExec(cfg)
 	if err != nil {
@@ -72,7 +72,7 @@ func Play(beh M, rng *rand.Rand, keep func(M) M) ([]M, error) {
 		}
 	}
 	x.Lis.Close()
-	p := &Projector{Conn: conn.ID, Keep: keep}
+	p := &Projector{Conn: conn.ID, Proj: proj, SkipPre: proj != nil && proj.SkipPreamble}
 	for _, e := range x.Log.Events() {
 		p.Feed(e)
 	}
